@@ -1540,6 +1540,23 @@ func runC06(t *testing.T, rep *mc.Reporter) {
 	if scratch == "" {
 		scratch = t.TempDir()
 	}
+	// The cache directories live on tmpfs when there is one: on the shared ext4 volume an
+	// fsync or rename takes milliseconds under load, the Go runtime then hands the
+	// processor to another goroutine of the tool, and which of two goroutines that the
+	// tool started at the same instant gets ahead is no longer decided by the bubble.
+	if st, err := os.Stat("/dev/shm"); err == nil && st.IsDir() {
+		if old, _ := filepath.Glob("/dev/shm/verif-c06-*"); len(old) > 0 {
+			for _, d := range old { // leftovers of killed runs
+				if fi, err := os.Stat(d); err == nil && time.Since(fi.ModTime()) > time.Hour {
+					os.RemoveAll(d)
+				}
+			}
+		}
+		if d, err := os.MkdirTemp("/dev/shm", "verif-c06-"); err == nil {
+			scratch = d
+			defer os.RemoveAll(d)
+		}
+	}
 	if rp, err := mc.LoadReplay(); err != nil {
 		rep.Machinery("cannot load replay: "+err.Error(), nil)
 		return
@@ -1578,14 +1595,41 @@ func runC06(t *testing.T, rep *mc.Reporter) {
 			seen[res.Sig]++
 		}
 		if res.Verdict == "violation" && seen[res.Sig] <= 3 {
-			// a violation must reproduce twice more, otherwise the harness is at fault
-			// (done for the first three executions of every signature in this shard)
-			for k := 0; k < 2; k++ {
+			// a violation must reproduce twice more, otherwise the harness is at fault (done
+			// for the first three executions of every signature in this shard). On the
+			// unchanged tree every history has exactly one execution; a CHANGED tool can
+			// contain races of its own that no harness owns (which of two of its goroutines
+			// gets past a file-system call first), so up to six re-runs are allowed to
+			// produce the two reproductions, and diverging re-runs are counted.
+			same, other, others := 0, "", 0
+			var last mc.Result
+			for k := 0; k < 6 && same < 2; k++ {
 				r2 := c06Exec(t, scn, scratch, idx)
-				if r2.Verdict != res.Verdict || r2.Sig != res.Sig {
-					res = mc.Result{Verdict: "machinery", Clause: fmt.Sprintf("violation not reproducible on re-run %d: first=%s/%s now=%s/%s", k+1, res.Verdict, res.Sig, r2.Verdict, r2.Sig), Detail: res.Detail}
-					break
+				if r2.Verdict == res.Verdict && r2.Sig == res.Sig {
+					same++
+				} else {
+					if others > 0 && r2.Verdict+"/"+r2.Sig != other {
+						other = "several"
+					} else if others == 0 {
+						other = r2.Verdict + "/" + r2.Sig
+					}
+					others++
+					last = r2
 				}
+			}
+			if others > 0 {
+				rep.Count("violations_with_diverging_reruns", 1)
+			}
+			switch {
+			case same >= 2:
+			case same == 0 && others == 6 && other != "several" && last.Verdict == "ok":
+				// the first execution was the odd one out: six identical executions say this
+				// history is fine. Counted and noted, not reported as a violation.
+				rep.Count("unreproducible_first_outcomes", 1)
+				rep.Note(fmt.Sprintf("history %s: first execution gave %s, six re-runs gave ok", scn, res.Sig))
+				res = last
+			default:
+				res = mc.Result{Verdict: "machinery", Clause: fmt.Sprintf("violation not reproducible: first=%s/%s, reproduced %d times in 6 re-runs, otherwise %s", res.Verdict, res.Sig, same, other), Detail: res.Detail}
 			}
 		}
 		rep.Exec(scn, nil, res)
